@@ -177,7 +177,8 @@ func runC07(w *mon.W) {
 	// script 12: a late completion that arrives after K other requests have been served and
 	// the tag has been reused; K around the widths of small counters
 	ks := []int{1, 254, 255, 256, 65534, 65535, 65536}
-	for rep := 0; rep < w.Scale(1, 6); rep++ {
+	// (whether a late completion reaches the serve loop at all is a coin flip inside the server: repeated)
+	for rep := 0; rep < w.Scale(5, 16); rep++ {
 		for _, k := range ks {
 			caseNo++
 			if w.Mine(caseNo) {
